@@ -80,7 +80,9 @@ Definition parse_operator (i : str) : outcome (str * str) :=
        if eqc leader 0 || eqc secondary 0 then Err
        else if (eqc leader 62 && eqc secondary 61) || (eqc leader 60 && eqc secondary 61)
                || (eqc leader 60 && eqc secondary 60) || (eqc leader 62 && eqc secondary 62)
-            then Ok ([leader; secondary], i) else Err.
+            then (* ... nor are ">==", "<<<", "<=>": a third operator character refuses the operator (repair b3668d3) *)
+                 (if eqc (peek i) 61 || eqc (peek i) 60 || eqc (peek i) 62 then Err else Ok ([leader; secondary], i))
+            else Err.
 
 (* parsePossibilityNumber *)
 Fixpoint number_loop (num : str) (i : str) : outcome (str * str) :=
